@@ -1361,6 +1361,12 @@ class SpaceManager(SharedSpaceOperations):
 
         # FIX: Creating a Cells of the same name in ``space``
 
+        if not is_valid_name(name) and formula is not None:
+            # the name is going to be taken from the formula
+            funcname = Formula(formula).name
+            if is_valid_name(funcname):
+                name = funcname
+
         if not self._can_add(space, name, CellsImpl):
             raise ValueError("Cannot create cells '%s'" % name)
 
